@@ -123,3 +123,24 @@ check(
     assumptions=["numeric parameters are kept inside the documented ranges; array lengths, index entries and right-hand-side lengths are free",
                  "an ASan 'out-of-memory/allocation-size-too-big' abort is treated as the std::bad_alloc it replaces"],
 )
+
+check(
+    "C06",
+    runs=[dict(harness="C06_framing", flavour="plain"),
+          dict(harness="C06_framing", flavour="asan", opts={"kmax": "7", "scale": "0.5"})],
+    rule=("each of ~115 processor configurations (FirFilter R/C, FftFilter R/C, FIRDecimator, FIRInterpolator, FIRRateConverter incl. 160/441 "
+          "and 147/160, FIRResampler, Delay R/C, MedianFilter, MAFilter R/C, HilbertFilter, Tuner, Agc R/C, Compressor, Limiter, NoiseGate, "
+          "LMS/NLMS R/C, RLS R/C with lock toggles on sample indices): every composition of k granules (k<=9 quick, k<=12 thorough; asan "
+          "pass k<=7) and random heavy-tailed framings of streams up to 1e4 (quick) / 1e5 (thorough) samples, compared with one call on "
+          "the whole stream by a fresh instance (equal output counts, |diff| <= 1e-12*scale); interleaved instances vs solo runs. "
+          "non-trivial = framing with more than one frame; distinct = (configuration, framing)."),
+    exhaustive_subspaces={"quick": ["all 2^(k-1) framings of k<=9 granules per configuration"],
+                          "thorough": ["all 2^(k-1) framings of k<=12 granules per configuration (k<=6 for granules above 500 samples)"]},
+    min_distinct={"quick": 20000, "thorough": 200000},
+    min_obs={"quick": {"interleaved_instance_pairs": 100}, "thorough": {"interleaved_instance_pairs": 100}},
+    technique="runtime monitor: differential check over framing histories (whole-stream run vs framed run of the same binary), plus instance-interleaving monitor; short part repeated under ASan",
+    level_text=("All framings of short streams and random framings of long streams are executed for every processor configuration and "
+                "compared sample for sample with the unframed run; held on the framings counted in the evidence."),
+    level_note="trusted: the adapters that slice the stream; comparison tolerance 1e-12 relative (bitwise disagreement is counted separately)",
+    assumptions=["parameter grid as listed in harness/C06_framing.cpp; FftFilter is compared as concatenated output (its per-call count depends on block alignment)"],
+)
